@@ -12,7 +12,10 @@ GRIDS = {}
 def the_grid(tier):
     if tier not in GRIDS:
         tg = [t for t in nvar.toggles("quick") if t[0] != "t_itempos"] + [t for t in c06.EXTRA if t[0] != "t_glpos"]
-        GRIDS[tier] = grid.Grid("hierarchy-universe", tg, free=c06.BASE)
+        base = c06.BASE
+        if tier == "quick":
+            base = [("b_host", c06.B_HOST), ("b_path", ["", "/P/Q.html"]), ("b_query", [0, 1, 3])]
+        GRIDS[tier] = grid.Grid("hierarchy-universe", tg, free=base)
     return GRIDS[tier]
 
 
@@ -21,28 +24,51 @@ def fns():
     return m.canonicalize_url, m.normalize_url, m.fingerprint_url
 
 
-def triple(u, v):
-    c, n, f = fns()
-    rc = core.call(c, u, quoted=v["quoted"])
-    rn = core.call(n, u, quoted=v["quoted"], platform_aware=v["platform_aware"])
-    rf = core.call(f, u, platform_aware=v["platform_aware"], strip_suffix=v["strip_suffix"])
-    return rc, rn, rf
+class Calls:
+    """memoised calls for one URL: quoted only matters to c and n, platform_aware to n and f, strip_suffix to f"""
+
+    def __init__(self):
+        self.m = {}
+
+    def c(self, u, q):
+        k = ("c", u, q)
+        if k not in self.m:
+            self.m[k] = core.call(fns()[0], u, quoted=q)
+        return self.m[k]
+
+    def n(self, u, q, p):
+        k = ("n", u, q, p)
+        if k not in self.m:
+            self.m[k] = core.call(fns()[1], u, quoted=q, platform_aware=p)
+        return self.m[k]
+
+    def f(self, u, p, s):
+        k = ("f", u, p, s)
+        if k not in self.m:
+            self.m[k] = core.call(fns()[2], u, platform_aware=p, strip_suffix=s)
+        return self.m[k]
 
 
-def judge_url(u, vi):
+def triple(u, v, calls=None):
+    calls = calls or Calls()
+    return (calls.c(u, v["quoted"]), calls.n(u, v["quoted"], v["platform_aware"]),
+            calls.f(u, v["platform_aware"], v["strip_suffix"]))
+
+
+def judge_url(u, vi, calls=None):
     """composition clauses for one URL and one option vector"""
-    c, n, f = fns()
+    calls = calls or Calls()
     v = VECTORS[vi]
-    rc, rn, rf = triple(u, v)
+    rc, rn, rf = triple(u, v, calls)
     fails = []
     if rc[0] != "ok" or rn[0] != "ok" or rf[0] != "ok":
         return fails, None
     cu = rc[1]
-    nc = core.call(n, cu, quoted=v["quoted"], platform_aware=v["platform_aware"])
+    nc = calls.n(cu, v["quoted"], v["platform_aware"])
     if nc[0] != "ok" or nc[1] != rn[1]:
         fails.append((PROP + ".n-after-c", {"normalize_url(u)": rn[1]},
                       {"canonicalize_url(u)": cu, "normalize_url(canonical)": nc[1] if nc[0] == "ok" else list(nc)}))
-    fc = core.call(f, cu, platform_aware=v["platform_aware"], strip_suffix=v["strip_suffix"])
+    fc = calls.f(cu, v["platform_aware"], v["strip_suffix"])
     if fc[0] != "ok" or fc[1] != rf[1]:
         fails.append((PROP + ".f-after-c", {"fingerprint_url(u)": rf[1]},
                       {"canonicalize_url(u)": cu, "fingerprint_url(canonical)": fc[1] if fc[0] == "ok" else list(fc)}))
@@ -53,8 +79,9 @@ def evaluate(case):
     u = nvar.build(case, toggled=True, extra=c06.extra)
     fails, tags = [], []
     outs = []
+    calls = Calls()
     for vi in range(len(VECTORS)):
-        f, t = judge_url(u, vi)
+        f, t = judge_url(u, vi, calls)
         for (c, e, g) in f:
             fails.append((c, dict(e, opts=VECTORS[vi]), g))
         outs.append(t)
@@ -66,33 +93,54 @@ def evaluate(case):
 # ---- collision classes -----------------------------------------------------------
 
 _CG = None
+_SH = None
 
 
 def _class_task(task):
-    """-> per option vector: maps canonical -> {normalized: example}, normalized -> {fingerprint: example}"""
+    """one pass: composition clauses (shrunk here) + per option vector the maps
+    canonical -> {normalized: example}, normalized -> {fingerprint: example}"""
+    global _SH
     g = _CG
+    if _SH is None:
+        _SH = core.Shrinker(the_grid("thorough").wsimplify, fails_fn)
     c2n = [dict() for _ in VECTORS]
     n2f = [dict() for _ in VECTORS]
-    n = 0
+    n = ncases = changed = 0
+    minimal = {}
+    counts = {}
+    outs = set()
+    wg = the_grid("thorough")
     for case in g.cases(task):
+        ncases += 1
         u = nvar.build(case, toggled=True, extra=c06.extra)
+        calls = Calls()
+        cu = calls.c(u, False)
         members = [u]
-        cu = core.call(fns()[0], u)
         if cu[0] == "ok" and cu[1] != u:
             members.append(cu[1])  # the universe is closed under canonicalize_url
+            changed += 1
         for x in members:
             n += 1
             for vi, v in enumerate(VECTORS):
-                rc, rn, rf = triple(x, v)
-                if rc[0] != "ok" or rn[0] != "ok" or rf[0] != "ok":
+                if x is u:
+                    fl, t = judge_url(x, vi, calls)
+                    for (c, e, gg) in fl:
+                        counts[c] = counts.get(c, 0) + 1
+                        wmin, res = _SH.shrink(c, wg.wit(case), dict(e, opts=v), gg)
+                        minimal.setdefault((c, core.canon_json(wmin)), (c, wmin, res[0], res[1]))
+                else:
+                    rc, rn, rf = triple(x, v, calls)
+                    t = (rc[1], rn[1], rf[1]) if rc[0] == rn[0] == rf[0] == "ok" else None
+                if t is None:
                     continue
-                d = c2n[vi].setdefault(rc[1], {})
-                if rn[1] not in d or (len(x), x) < (len(d[rn[1]]), d[rn[1]]):
-                    d[rn[1]] = x
-                d = n2f[vi].setdefault(rn[1], {})
-                if rf[1] not in d or (len(x), x) < (len(d[rf[1]]), d[rf[1]]):
-                    d[rf[1]] = x
-    return n, c2n, n2f
+                outs.add(hash(t))
+                d = c2n[vi].setdefault(t[0], {})
+                if t[1] not in d or (len(x), x) < (len(d[t[1]]), d[t[1]]):
+                    d[t[1]] = x
+                d = n2f[vi].setdefault(t[1], {})
+                if t[2] not in d or (len(x), x) < (len(d[t[2]]), d[t[2]]):
+                    d[t[2]] = x
+    return ncases, n, changed, c2n, n2f, list(minimal.values()), counts, outs
 
 
 def _merge(dst, src):
@@ -140,23 +188,36 @@ def run(chk):
         "under canonicalize_url, x 8 option vectors (quoted, platform_aware, strip_suffix; same settings on both sides). Compositions "
         "normalize_url(canonicalize_url(u)) == normalize_url(u) and fingerprint_url(canonicalize_url(u)) == fingerprint_url(u) on every "
         "URL; collision classes: URLs grouped by canonical form must share the normalized form, URLs grouped by normalized form must "
-        "share the fingerprint (classes computed over the <= 2-deviation universe)." % d
+        "share the fingerprint." % d
     )
-    failures, tags = grid.run(chk, g, d, evaluate, shrink=(g.wit, g.wsimplify, fails_fn), target=12000)
-    n1 = chk.cov["states"]
-    chk.clause(PROP + ".n-after-c", checked=n1 * 8, nontrivial=tags.get("changed", 0))
-    chk.clause(PROP + ".f-after-c", checked=n1 * 8, nontrivial=tags.get("changed", 0))
-    # collision classes over the d<=2 universe
     _CG = g
-    tasks = g.tasks(2, 8000)
+    tasks = g.tasks(d, 6000)
     c2n = [dict() for _ in VECTORS]
     n2f = [dict() for _ in VECTORS]
-    members = 0
-    for n, a, b in core.pmap(_class_task, tasks, chk.seed):
+    members = n1 = changed = 0
+    minimal, counts, outs = {}, {}, set()
+    for nc, n, ch, a, b, mins, cnt, o in core.pmap(_class_task, tasks, chk.seed):
+        n1 += nc
         members += n
+        changed += ch
+        outs |= o
+        for m in mins:
+            minimal.setdefault((m[0], core.canon_json(m[1])), m)
+        for c, k in cnt.items():
+            counts[c] = counts.get(c, 0) + k
         for vi in range(len(VECTORS)):
             _merge(c2n[vi], a[vi])
             _merge(n2f[vi], b[vi])
+    if n1 != g.size(d):
+        raise core.Harness("enumerated %d cases, expected %d" % (n1, g.size(d)))
+    core.report_minimal(chk, list(minimal.values()), counts)
+    chk.add("states", n1)
+    chk.add("traces_validated_against_impl", n1)
+    chk.add("distinct_nontrivial", len(outs))
+    chk.sample({"grid": g.name, "case": g.default_case()})
+    chk.cov["parts"][g.name] = {"cases": n1, "d": d, "failing": sum(counts.values()), "distinct_outputs": len(outs)}
+    chk.clause(PROP + ".n-after-c", checked=n1 * 8, nontrivial=changed)
+    chk.clause(PROP + ".f-after-c", checked=n1 * 8, nontrivial=changed)
     nclasses_c = sum(len(x) for x in c2n)
     nclasses_n = sum(len(x) for x in n2f)
     multi_n = 0
@@ -177,8 +238,6 @@ def run(chk):
         raise core.Harness("collision classes are mostly singletons: %r" % chk.cov["parts"]["classes"])
     chk.clause(PROP + ".c-implies-n", checked=members * 8, nontrivial=members * 8 - nclasses_c)
     chk.clause(PROP + ".n-implies-f", checked=members * 8, nontrivial=members * 8 - nclasses_n)
-    chk.add("states", members)
-    chk.add("traces_validated_against_impl", members)
-    chk.add("transitions", n1 * 8 * 5 + members * 8 * 3)
+    chk.add("transitions", n1 * 22 + (members - n1) * 10)
     chk.add("evaluations", n1 * 8 + members * 8)
-    chk.cov["bounds"] = {"compositions d": d, "classes d": 2}
+    chk.cov["bounds"] = {"d": d, "bases": g.free_count}
